@@ -277,9 +277,11 @@ func (s *session) resend(msg *Message) bool {
 func (s *session) queueForSend(msg *Message) error {
 	// resendMutex must always be locked before sendMutex to prevent a potential deadlock.
 	// Makes sure that live traffic cannot interleave with replayed messages while processing a ResendRequest.
+	verifPoint("queueForSend.enter")
 	s.resendMutex.RLock()
 	defer s.resendMutex.RUnlock()
 
+	verifPoint("queueForSend.rlocked")
 	s.sendMutex.Lock()
 	defer s.sendMutex.Unlock()
 
@@ -312,9 +314,11 @@ func (s *session) sendInReplyTo(msg *Message, inReplyTo *Message) error {
 	}
 
 	// resendMutex must always be locked before sendMutex to prevent a potential deadlock
+	verifPoint("sendInReplyTo.enter")
 	s.resendMutex.RLock()
 	defer s.resendMutex.RUnlock()
 
+	verifPoint("sendInReplyTo.rlocked")
 	s.sendMutex.Lock()
 	defer s.sendMutex.Unlock()
 
@@ -343,6 +347,7 @@ func (s *session) dropAndSend(msg *Message) error {
 	return s.dropAndSendInReplyTo(msg, nil)
 }
 func (s *session) dropAndSendInReplyTo(msg *Message, inReplyTo *Message) error {
+	verifPoint("dropAndSend.enter")
 	s.sendMutex.Lock()
 	defer s.sendMutex.Unlock()
 
@@ -396,7 +401,9 @@ func (s *session) prepMessageForSend(msg *Message, inReplyTo *Message) (msgBytes
 
 	// Message converted to bytes here.
 	msgBytes = msg.build()
+	verifPoint("prep.beforePersist")
 	err = s.persist(seqNum, msgBytes)
+	verifPoint("prep.afterPersist")
 
 	return
 }
@@ -426,6 +433,7 @@ func (s *session) dropQueued() {
 }
 
 func (s *session) EnqueueBytesAndSend(msg []byte) {
+	verifPoint("enqueue.enter")
 	s.sendMutex.Lock()
 	defer s.sendMutex.Unlock()
 
